@@ -24,7 +24,7 @@ def _matches_finding(finding, pid, obl_name):
 
 
 def _slug(name):
-    return re.sub(r"[^A-Za-z0-9_.-]+", "_", name)[:120] + "_" + hashlib.sha1(name.encode()).hexdigest()[:8]
+    return re.sub(r"[^A-Za-z0-9_.-]+", "_", name)[:90] + "_" + hashlib.sha1(name.encode()).hexdigest()[:8]
 
 
 def conclude(pid, tier, seed, reg, spec, keys, fn_infos, problems, jobs, results, bounded, wall):
@@ -60,7 +60,7 @@ def conclude(pid, tier, seed, reg, spec, keys, fn_infos, problems, jobs, results
             if f is not None:
                 known_hits.append((f, dict(name=b["name"] + ":" + v.get("case", ""))))
                 continue
-            path = os.path.join("replays", pid, _slug(b["name"] + "_" + v.get("case", "case")) + ".json")
+            path = os.path.join("replays", pid, _slug(b["name"] + "_" + v.get("case", "case") + "_" + json.dumps(v.get("input"), sort_keys=True, default=str)) + ".json")
             with open(os.path.join(ROOT, path), "w") as fh:
                 json.dump(dict(property=pid, kind="bounded", check=b["name"], **v), fh, indent=1)
             violations.append((dict(name=b["name"] + ":" + v.get("case", "")), path, True))
